@@ -92,7 +92,30 @@ class RecordLoop:
                 rhs = stmt.test.comparators[0]
                 if sl == (0, 6) and isinstance(rhs, ast.Name) and rhs.id in self.params:
                     self.tags_param = rhs.id
+                    self.outside = [x for x in self.loop.body if x is not stmt]
                     return stmt
+        # guard form (the loader reads a trailing `if T: <block>` of a loop body
+        # as `if not T: continue` followed by the block): the atom block is the
+        # rest of the loop body behind the record-type guard
+        for idx, stmt in enumerate(self.loop.body):
+            if isinstance(stmt, ast.If) and not stmt.orelse and len(stmt.body) == 1 \
+                    and isinstance(stmt.body[0], ast.Continue) and isinstance(stmt.test, ast.Compare) \
+                    and isinstance(stmt.test.ops[0], ast.NotIn):
+                sl = self.slice_of(stmt.test.left)
+                rhs = stmt.test.comparators[0]
+                rest = self.loop.body[idx + 1:]
+                if sl == (0, 6) and isinstance(rhs, ast.Name) and rhs.id in self.params \
+                        and any(isinstance(y, ast.Yield) for st in rest for y in ast.walk(st)):
+                    self.tags_param = rhs.id
+                    self.tag_guard = stmt
+                    self.outside = self.loop.body[:idx]     # statements run for every record
+                    block = ast.If(test=ast.Compare(left=stmt.test.left, ops=[ast.In()],
+                                                    comparators=[rhs]), body=rest, orelse=[])
+                    ast.copy_location(block, stmt)
+                    block.end_lineno = getattr(rest[-1], 'end_lineno', stmt.lineno)
+                    block._parent = self.loop
+                    block.test._parent = block
+                    return block
         raise AnalysisError('record loop: atom-record block (`if <tag> in <parameter>`) not found')
 
     def _state_vars(self):
